@@ -277,7 +277,7 @@ CHECKS["C20"] = dict(
                 "removed and one-shot watches must be out of the instance's watch set when their handler runs; records for live watches "
                 "must not be skipped; freed watches/instances are poisoned (ASan)",
     assumptions=INO_ASSUME,
-    deadline=dict(quick=150, thorough=900),
+    deadline=dict(quick=300, thorough=900),
 )
 
 MT_ASSUME = [
@@ -435,8 +435,10 @@ CHECKS["C11"] = dict(
 )
 
 CHECKS["C19"] = dict(
-    quick=[R("h_popen", "bound=0")],
-    thorough=[R("h_popen", "bound=0")],
+    quick=[R("h_popen", "bound=0"),
+           # the child-wait layer under iv_popen with two loop threads: spawn, reap in either thread, kill helper
+           R("h_wait", "bound=2 steps=1 pops=2,3", sched=True)],
+    thorough=[R("h_popen", "bound=0"), R("h_wait", "bound=2 steps=2", sched=True)],
     rule="complete cross product: 4 poll methods x request type r/w x 16 child scripts (exits before the parent continues, dies on the 1st / "
          "2nd / 3rd / 5th termination request, ignores them (dies on the unconditional kill), exits spontaneously at blocking point "
          "0/1/2/3/6/7, i.e. between two signals, or at the very instant sleep 0/1/2/6 ends, so that SIGCHLD and the due timer are handled in one round) x with / without an unrelated child that ends in the same SIGCHLD x 5 close timings (right after submit, from a timer now / at 1 s / at 7 s, never closed); "
@@ -446,7 +448,8 @@ CHECKS["C19"] = dict(
                 "signal log of the simulated process table must be TERM x<=5 then KILL at exact 5 s spacing from the close, with nothing "
                 "after the termination was reaped; at the end the child is reaped, iv_main has returned, ledger balanced",
     assumptions=["fork/wait4/kill served from a simulated process table; SIGCHLD raised synchronously at the next blocking point after a child "
-                 "ended", "virtual clock", "no schedule dimension: the library code involved is single-threaded here (C11 covers threads)"],
+                 "ended", "virtual clock", "h_popen has no schedule dimension (one thread); the spawn / reap / kill-helper layer it rests on (iv_wait.c) is run "
+                 "with two loop threads in h_wait (same runs as C11, judged here by wait-lost and kill-after-reap)"],
     deadline=dict(quick=60, thorough=120),
 )
 
